@@ -679,6 +679,7 @@ func uniq32(in []uint32) []uint32 {
 type fixture struct {
 	chain  *blockchain.BlockChain
 	params *config.Configuration
+	st     *state.State // the chain's DPoS state (consensus algorithm is read from it)
 	close  func()
 }
 
@@ -699,14 +700,15 @@ func newFixture(scr string) *fixture {
 	if err != nil {
 		evid.Fatalf("chain store: %v", err)
 	}
-	chain, err := blockchain.New(store, params, state.NewState(params, nil, nil, nil, nil, nil, nil, nil, nil, nil, nil, nil), nil, ckp)
+	st := state.NewState(params, nil, nil, nil, nil, nil, nil, nil, nil, nil, nil, nil)
+	chain, err := blockchain.New(store, params, st, nil, ckp)
 	if err != nil {
 		evid.Fatalf("blockchain.New: %v", err)
 	}
 	if blockchain.DefaultLedger == nil {
 		blockchain.DefaultLedger = &blockchain.Ledger{Blockchain: chain, Store: store}
 	}
-	return &fixture{chain: chain, params: params, close: func() { store.Close() }}
+	return &fixture{chain: chain, params: params, st: st, close: func() { store.Close() }}
 }
 
 func elaOutput(v common.Fixed64, ph common.Uint168) *ctypes.Output {
